@@ -81,6 +81,23 @@ def gen_scenario(rng: random.Random, focus: str = "any") -> dict:
                     client.insert(0, ["POST", "/api/save-state"])
             else:
                 sc["save_condition"] = [False] * rng.randint(0, 5) + ["raise"]
+    if focus == "C04" and rng.random() < 0.2:
+        # a background thread fails while states keep being saved: a save must not land on a thread that
+        # is still tearing its components down
+        comp, cb = rng.choice([p for p in FAULT_POINTS if p[1] != "teardown"])
+        sc["faults"] = [{"comp": comp, "cb": cb, "k": rng.choice([1, 2, 3])}]
+        if comp.startswith("trainer"):
+            sc["trainers"] = max(1, sc["trainers"])
+        if comp == "child":
+            sc["child_agent"] = True
+        sc["save_condition"] = [False] * rng.randint(0, 4) + [True] * 60
+        if rng.random() < 0.5:
+            # ... and the teardown takes a while (virtual seconds): the control loop ticks many times meanwhile
+            sc["timed"] = True
+            sc["pause_timeout"] = rng.choice([1.0, 5.0])
+            sc["durations"] = {"teardown": rng.choice([1.0, 3.0]), "step": rng.choice([0.0, 0.5])}
+            sc["client"] = [["delay", rng.choice([2.0, 6.0])]] + \
+                [c for c in sc["client"] if c[0] != "POST!"][:2] + [["delay", 30.0], ["POST!", "/api/shutdown"]]
     if sc.get("faults") and not sc.get("timed") and rng.random() < 0.5:
         # nobody sends a command for a while after the scripted ones: a system that keeps going with a
         # dead thread is then seen to keep going (the final shutdown request comes several ticks later)
@@ -107,6 +124,26 @@ def gen_scenario(rng: random.Random, focus: str = "any") -> dict:
             tcl.append(["delay", rng.choice([0.0, 0.5, 1.5, 4.0])])
             tcl.append(c)
         sc["client"] = tcl
+    if focus == "C16":
+        # fixed-interval interaction inside launch(): timed runs with pauses / saves between and during steps
+        sc["timed"] = True
+        sc["faults"] = []
+        sc["child_agent"] = False
+        sc["pause_timeout"] = 30.0
+        sc["time_scale"] = rng.choice([0.5, 1.0, 2.0, 4.0])
+        sc["fixed_interval"] = rng.choice([2.0, 4.0]) * sc["time_scale"]
+        sc["interval_offset"] = rng.choice([0.0, 0.0, 0.25]) * sc["time_scale"]
+        sc["durations"] = {"step": rng.choice([0.0, 0.25, 0.5]) , "train": rng.choice([0.0, 1.0]),
+                           "on_resumed": rng.choice([0.0, 0.5])}
+        cl = []
+        for _ in range(rng.randint(1, 4)):
+            cl.append(["delay", rng.choice([0.5, 3.0, 5.0])])
+            cl.append(rng.choice([["POST", "/api/pause"], ["POST", "/api/resume"], ["POST", "/api/save-state"],
+                                  ["POST", "/api/pause"], ["POST", "/api/resume"]]))
+        cl += [["delay", rng.choice([3.0, 9.0])], ["POST", "/api/resume"], ["delay", 6.0], ["POST!", "/api/shutdown"]]
+        sc["client"] = cl
+        sc["save_condition"] = []
+        return sc
     if focus == "C08":
         # timed runs over step durations x logging intervals x scales x limits x pause scripts
         sc["timed"] = True
@@ -131,6 +168,15 @@ def gen_scenario(rng: random.Random, focus: str = "any") -> dict:
         if rng.random() < 0.3:
             sc["keeper_max_keep"] = rng.choice([0, 1, 2])
             sc["save_condition"] = [False] * rng.randint(2, 8) + [True, False, False, True]
+            if rng.random() < 0.5:
+                # old checkpoints are moved away by hand while the system runs
+                sc["archive_states"] = True
+                sc["save_condition"] = [False] * rng.randint(1, 4) + [True, False, True, False, False, True, True]
+        if rng.random() < 0.12:
+            # "no limit" written as a huge finite number (also: far beyond any calendar date)
+            sc["max_uptime"] = rng.choice([1e12, 1e18, 1.7e308])
+            sc["client"] = [c for c in sc["client"] if c[0] != "POST!"] + \
+                [["delay", rng.choice([1.0, 6.0])], ["POST!", "/api/shutdown"]]
     if focus == "C02" and rng.random() < 0.15:
         sc["interrupt_at"] = rng.randint(5, 120)
     if focus in ("C02", "C03", "C09") and rng.random() < 0.06:
